@@ -14,7 +14,7 @@ import operator
 from fractions import Fraction
 from typing import Any, Callable, Dict, Optional
 
-from .core import ClassInfo, External, Module, Repo, dotted, unparse
+from .core import ClassInfo, External, FuncInfo, Module, Repo, dotted, unparse
 
 
 class Unfoldable(Exception):
@@ -46,6 +46,33 @@ _CMP = {
     ast.Is: lambda a, b: a is b,
     ast.IsNot: lambda a, b: a is not b,
 }
+
+
+class Sym:
+    """a record of named abstract values standing for an object of the model (rule-built; attribute access folds to the field)"""
+
+    def __init__(self, **kw: Any):
+        self.__dict__.update(kw)
+
+    def __repr__(self) -> str:
+        return "Sym(%s)" % ", ".join("%s=%r" % kv for kv in sorted(self.__dict__.items()))
+
+
+class _Lambda:
+    def __init__(self, node: ast.Lambda, env: Dict[str, Any]):
+        self.node = node
+        self.env = env
+
+    def call(self, f: "Folder", args: list) -> Any:
+        a = self.node.args
+        params = [x.arg for x in a.posonlyargs + a.args]
+        if len(args) != len(params):
+            raise Unfoldable("lambda arity")
+        env = dict(self.env)
+        env.update(zip(params, args))
+        sub = Folder(env, f.repo, f.mod, f.cls, f.hook)
+        sub.depth = f.depth
+        return sub.fold(self.node.body)
 
 
 class Folder:
@@ -91,6 +118,13 @@ class Folder:
         if isinstance(e, ast.Name):
             return self._resolve(e)
         if isinstance(e, ast.Attribute):
+            if d is not None and d.split(".")[0] in self.env and isinstance(self.env[d.split(".")[0]], Sym):
+                base = self.fold(e.value)
+                if isinstance(base, Sym) and hasattr(base, e.attr):
+                    return getattr(base, e.attr)
+                if isinstance(base, tuple) and hasattr(base, "_fields") and e.attr in base._fields:
+                    return getattr(base, e.attr)
+                raise Unfoldable(unparse(e))
             if d is not None:
                 # self.CONST -> class constant through the MRO
                 if d.startswith("self.") and self.cls is not None and self.repo is not None and d.count(".") == 1:
@@ -103,6 +137,8 @@ class Folder:
                 return getattr(base, e.attr)
             if isinstance(base, dict) and e.attr in base:
                 return base[e.attr]
+            if isinstance(base, Sym) and hasattr(base, e.attr):
+                return getattr(base, e.attr)
             raise Unfoldable(unparse(e))
         if isinstance(e, ast.BinOp):
             l, r = self.fold(e.left), self.fold(e.right)
@@ -177,7 +213,60 @@ class Folder:
             return self._call(e)
         if isinstance(e, ast.JoinedStr):
             return "<fstring>"
+        if isinstance(e, (ast.ListComp, ast.SetComp, ast.GeneratorExp, ast.DictComp)):
+            return self._comprehension(e)
+        if isinstance(e, ast.Lambda):
+            return _Lambda(e, dict(self.env))
         raise Unfoldable(unparse(e))
+
+    def _bind_target(self, t: ast.AST, v: Any, env: Dict[str, Any]) -> None:
+        if isinstance(t, ast.Name):
+            env[t.id] = v
+        elif isinstance(t, (ast.Tuple, ast.List)):
+            vals = list(v)
+            if len(vals) != len(t.elts):
+                raise Unfoldable("unpacking")
+            for a, b in zip(t.elts, vals):
+                self._bind_target(a, b, env)
+        else:
+            raise Unfoldable("target " + unparse(t))
+
+    def _comprehension(self, e: Any) -> Any:
+        out: list = []
+
+        def rec(i: int, env: Dict[str, Any]) -> None:
+            if len(out) > 100000:
+                raise Unfoldable("comprehension too large")
+            f = Folder(env, self.repo, self.mod, self.cls, self.hook)
+            f.depth = self.depth
+            if i == len(e.generators):
+                if isinstance(e, ast.DictComp):
+                    out.append((f.fold(e.key), f.fold(e.value)))
+                else:
+                    out.append(f.fold(e.elt))
+                return
+            g = e.generators[i]
+            it = f.fold(g.iter)
+            if isinstance(it, (dict,)):
+                it = list(it)
+            try:
+                items = list(it)
+            except TypeError:
+                raise Unfoldable("not iterable: " + unparse(g.iter))
+            for v in items:
+                env2 = dict(env)
+                self._bind_target(g.target, v, env2)
+                f2 = Folder(env2, self.repo, self.mod, self.cls, self.hook)
+                f2.depth = self.depth
+                if all(f2.fold(c) for c in g.ifs):
+                    rec(i + 1, env2)
+
+        rec(0, dict(self.env))
+        if isinstance(e, ast.SetComp):
+            return frozenset(out)
+        if isinstance(e, ast.DictComp):
+            return dict(out)
+        return out
 
     def _resolve(self, e: ast.expr) -> Any:
         if self.repo is None or self.mod is None:
@@ -290,6 +379,97 @@ class Folder:
             return {"set": frozenset, "frozenset": frozenset, "tuple": tuple, "list": list, "sorted": sorted}[name](v)
         if name == "str":
             return str(self.fold(args[0]))
+        if name == "sum":
+            vals = list(self.fold(args[0]))
+            start = self.fold(args[1]) if len(args) > 1 else 0
+            return sum(vals, start)
+        if name in ("any", "all"):
+            vals = list(self.fold(args[0]))
+            return any(vals) if name == "any" else all(vals)
+        if name == "range":
+            vals = [self.fold(a) for a in args]
+            if not all(isinstance(v, int) for v in vals) or (len(range(*vals)) > 100000):
+                raise Unfoldable(unparse(e))
+            return list(range(*vals))
+        if name == "enumerate":
+            return list(enumerate(self.fold(args[0]), *([self.fold(args[1])] if len(args) > 1 else [])))
+        if name == "zip":
+            return list(zip(*[list(self.fold(a)) for a in args]))
+        if name == "reversed":
+            return list(reversed(list(self.fold(args[0]))))
+        if name in ("map", "filter") and len(args) == 2:
+            f = self.fold(args[0])
+            vals = list(self.fold(args[1]))
+            if isinstance(f, _Lambda):
+                res = [f.call(self, [v]) for v in vals]
+                return res if name == "map" else [v for v, k in zip(vals, res) if k]
+            raise Unfoldable(unparse(e))
+        if name in ("functools.reduce", "reduce") and len(args) in (2, 3):
+            f = self.fold(args[0])
+            vals = list(self.fold(args[1]))
+            if isinstance(f, _Lambda):
+                if len(args) == 3:
+                    acc = self.fold(args[2])
+                elif vals:
+                    acc, vals = vals[0], vals[1:]
+                else:
+                    raise Unfoldable("reduce of empty sequence")
+                for v in vals:
+                    acc = f.call(self, [acc, v])
+                return acc
+            raise Unfoldable(unparse(e))
+        if name in ("math.lcm", "math.gcd"):
+            vals = [self.fold(a) for a in args]
+            return getattr(math, name.split(".")[1])(*vals)
+        if name == "divmod":
+            return divmod(self.fold(args[0]), self.fold(args[1]))
+        if name == "isinstance" and len(args) == 2:
+            v = self.fold(args[0])
+            kn = [dotted(k) for k in (args[1].elts if isinstance(args[1], ast.Tuple) else [args[1]])]
+            pyk = {"int": int, "bool": bool, "str": str, "float": float, "fractions.Fraction": Fraction, "Fraction": Fraction, "set": (set, frozenset), "frozenset": frozenset, "list": list, "tuple": tuple, "dict": dict}
+            if all(k in pyk for k in kn) and not isinstance(v, Sym):
+                return any(isinstance(v, pyk[k]) for k in kn)  # type: ignore
+            raise Unfoldable(unparse(e))
+        # a local lambda / a private expression helper of the repository (single returned expression)
+        fv = None
+        if isinstance(e.func, ast.Name) and e.func.id in self.env:
+            fv = self.env[e.func.id]
+        if isinstance(fv, _Lambda):
+            return fv.call(self, [self.fold(a) for a in args])
+        if self.repo is not None and self.mod is not None and isinstance(e.func, (ast.Name, ast.Attribute)):
+            r = None
+            if isinstance(e.func, ast.Attribute) and isinstance(e.func.value, ast.Name) and e.func.value.id in ("self", "cls") and self.cls is not None:
+                r = self.repo.lookup_method(self.cls, e.func.attr)
+                skip_self = r is not None and not r.is_static
+            else:
+                try:
+                    r = self.repo.resolve_expr(self.mod, e.func, self.cls)
+                except Exception:
+                    r = None
+                skip_self = False
+                if isinstance(r, FuncInfo) and r.cls is not None and not r.is_static:
+                    r = None
+            if isinstance(r, FuncInfo) and r.name.startswith("_") and not r.name.startswith("__"):
+                from .inline import Inliner
+
+                ex = Inliner(self.repo)._as_expression(r)
+                if ex is not None:
+                    a = r.node.args
+                    params = [x.arg for x in a.posonlyargs + a.args]
+                    if skip_self:
+                        params = params[1:]
+                    if len(args) <= len(params) and not a.vararg and not a.kwarg:
+                        env = dict(self.env) if skip_self else {}
+                        defaults = dict(zip(reversed([x.arg for x in a.posonlyargs + a.args]), reversed(a.defaults)))
+                        sub = Folder(env, self.repo, r.module, r.cls if skip_self else r.cls, self.hook)
+                        sub.depth = self.depth
+                        for p_, v_ in zip(params, args):
+                            sub.env[p_] = self.fold(v_)
+                        for p_ in params[len(args):]:
+                            if p_ not in defaults:
+                                raise Unfoldable(unparse(e))
+                            sub.env[p_] = Folder({}, self.repo, r.module, r.cls).fold(defaults[p_])
+                        return sub.fold(ex)
         if name == "ValueRange" or (name or "").endswith(".ValueRange"):
             raise Unfoldable(unparse(e))
         raise Unfoldable("call " + unparse(e))
